@@ -26,7 +26,7 @@ ASSUMPTIONS = ['base documents carry quote-free comments (own-line and trailing,
                'faults are placed between the writer\'s tokens, never inside a literal, name or type']
 KINDS = ['stray', 'del_struct', 'extra_struct', 'unterminated', 'no_type', 'unknown_setting', 'bad_index_type',
          'bad_operator', 'bad_action', 'bad_colour', 'garbage_end', 'garbage_start', 'truncate', 'literal_as_name',
-         'dup_settings', 'empty_block', 'dup_type_args']
+         'dup_settings', 'empty_block', 'dup_type_args', 'dup_name']
 FLOORS = {'quick': {f'kind:{k}': 15 for k in KINDS}, 'thorough': {f'kind:{k}': 300 for k in KINDS}}
 STRAY = ['@', '%', ';', '=', '!', '~', '^', '&', '|', '?', '$', '@@', '=;', '\ufeff', '\ufeff\ufeff']
 SETTING_KINDS = {'column', 'index', 'enum_item', 'table_open', 'group_open', 'ref_short', 'ref_body', 'settings_cont'}
@@ -174,6 +174,18 @@ def fault(draw, lines, eol='\n'):
         dup = [Tok(t.text, t.cls, t.pre) for t in toks[a:b + 1]]
         dup[0].pre = ' '
         lines[i].toks = toks[:b + 1] + dup + toks[b + 1:]
+    elif kind == 'dup_name':
+        # an element has one name and at most one alias: `Table a a {`, `Ref n n: ...`, `Table t as x as x {`, `Enum e e {`
+        heads = {'table_open', 'group_open', 'enum_open', 'sticky_open', 'project_open', 'ref_short', 'ref_open'}
+        c = toks_where(lambda l, t: l.kind in heads and l.part in ('only', 'first') and t.cls == 'name')
+        c = [(i, j) for i, j in c if j == 1 or (lines[i].toks[j - 1].cls == 'kw' and lines[i].toks[j - 1].text.lower() == 'as')]
+        if not c:
+            return None
+        i, j = draw(st.sampled_from(c))
+        toks = lines[i].toks
+        a = j if j == 1 else j - 1
+        dup = [Tok(x.text, x.cls, ' ') for x in toks[a:j + 1]]
+        lines[i].toks = toks[:j + 1] + dup + toks[j + 1:]
     elif kind == 'empty_block':
         # an Enum needs at least one item, an indexes block at least one index
         opens = [i for i in real if lines[i].kind in ('enum_open', 'indexes_open')]
